@@ -488,6 +488,15 @@ class FnTaint:
             if n.get("k") == "bin" and n.get("op") in ("*", "+", "<<") and "v" not in n:
                 if self.expr_width(n) < 64:
                     return True
+            # an unsigned count viewed as a signed value of the same (or smaller) width: 0x80000000 and above
+            # become negative and pass every `> limit` rejection
+            if n.get("k") in ("cast", "icast") and n.get("is") is True and "v" not in n:
+                e = n.get("e")
+                while isinstance(e, dict) and e.get("k") in ("copy", "paren"):
+                    e = e.get("e")
+                if isinstance(e, dict) and e.get("is") is False and (e.get("iw") or 0) >= 32 and \
+                        (n.get("iw") or 64) <= (e.get("iw") or 0):
+                    return True
         return False
 
     def const_of(self, t):
